@@ -29,8 +29,17 @@ SLICES = 16
 
 
 def variants(model):
-    """Single-leaf replacements (each one deviation)."""
+    """Single-leaf replacements (each one deviation), plus anonymous-type pairs for EDC."""
     lvs = M.leaves(model)
+    # two same-named leaves with distinct anonymous types (same base / different base), or one anonymous one named
+    for i in range(len(lvs)):
+        for j in range(i + 1, len(lvs)):
+            if lvs[i][0] == 'el' and lvs[j][0] == 'el' and lvs[i][4] == lvs[j][4]:
+                for ta, tb in (('anon1', 'anon2'), ('anon1', 'anon3'), ('anon1', None)):
+                    m2 = M.replace_leaf(model, i, lambda o, ta=ta: M.el_typed(o[4], ta, o[1], o[2]))
+                    if tb:
+                        m2 = M.replace_leaf(m2, j, lambda o, tb=tb: M.el_typed(o[4], tb, o[1], o[2]))
+                    yield m2
     for i, lf in enumerate(lvs):
         name = lf[4]
         yield M.replace_leaf(model, i, lambda o: M.el_typed(o[4], 'int', o[1], o[2]))
